@@ -148,6 +148,7 @@ class ScipyOptimizeDriver(Driver):
         self._scipy_optimize_result = None
         self._grad_cache = None
         self._con_cache = None
+        self._con_cache_x = None
         self._con_idx = {}
         self._obj_and_nlcons = None
         self._dvlist = None
@@ -250,6 +251,7 @@ class ScipyOptimizeDriver(Driver):
             self.iter_count += 1
 
         self._con_cache = self.get_constraint_values()
+        self._con_cache_x = None
         desvar_vals = self.get_design_var_values()
         self._dvlist = list(self._designvars)
 
@@ -598,6 +600,7 @@ class ScipyOptimizeDriver(Driver):
                 break
 
             self._con_cache = self.get_constraint_values()
+            self._con_cache_x = np.array(x_new, dtype=float)
 
         except Exception:
             if self._exc_info is None:  # only record the first one
@@ -629,8 +632,10 @@ class ScipyOptimizeDriver(Driver):
         float
             Value of the constraint function.
         """
-        if self.options['optimizer'] in ['differential_evolution', 'COBYQA']:
-            # the DE opt will not have called this, so we do it here to update DV/resp values
+        if self.options['optimizer'] in ['differential_evolution', 'COBYQA'] or \
+                self._con_cache_x is None or not np.array_equal(x_new, self._con_cache_x):
+            # scipy may ask for the constraints at a point where it has not (yet) evaluated the
+            # objective, so run the model here to update DV/resp values
             self._objfunc(x_new)
 
         return self._con_cache[name][idx]
